@@ -54,6 +54,8 @@ fn main() {
       if prop == "C10" || prop == "C11" || prop == "C12" || prop == "C20" { std::process::exit(remapping_loop::explore(prop, secs, seed)); }
       std::process::exit(key_transforms::explore(prop, secs, seed));
     },
+    "realdriver" => { let seed: u64 = args[2].parse().unwrap(); let cases: u64 = args[3].parse().unwrap(); std::process::exit(remapping_loop::real_driver(seed, cases)); },
+    "realdriver1" => { let n: u64 = args[2].parse().unwrap(); std::process::exit(remapping_loop::real_driver_one(n)); },
     "tables" => { std::process::exit(tables_probe::tables()); },
     "anymod" => { std::process::exit(key_transforms::anymod()); },
     "c18" => {
